@@ -168,7 +168,7 @@ def date_from_ymd(year, month, day):
     """Construct a date with year, month, day arguments."""
     try:
         return datetime.date(year, month, day)
-    except ValueError:
+    except (ValueError, OverflowError):
         return None
 
 
